@@ -29,7 +29,7 @@ Rec(n) == LET t == RE(RecTypes) IN
            rot |-> RE({FALSE, FALSE, TRUE}),
            longNonce |-> RE(BOOLEAN),
            rekey |-> RE({FALSE, TRUE})]           \* node records: the wrapper is re-keyed under the same key id and the record stored again             \* node credentials: the nonce is a decoded activation token (not 32 bytes)      \* the wrapper's encrypting key is rotated between store and load (old values still open)
-Flow(n) == [op |-> "Flow", name |-> RE({"authorize", "token", "rotate", "rotateNamed", "dial", "dialtoken"}), withState |-> RE(BOOLEAN)]
+Flow(n) == [op |-> "Flow", name |-> RE({"authorize", "token", "rotate", "rotateNamed", "dial", "dialtoken", "tokenRefused"}), withState |-> RE(BOOLEAN)]
 Init == hist = <<>> /\ done = FALSE
 Step == /\ Len(hist) < Depth
         /\ \E c \in {RE({"Crypt", "Crypt", "Crypt", "Rec", "Flow"})} :
